@@ -29,6 +29,9 @@ Notation "'let*' x ':=' m 'in' f" := (bind m (fun x => f))
   (at level 200, x pattern, m at level 100, f at level 200, right associativity).
 Definition ret {A} (a : A) : res A := Ok a.
 
+Lemma Ok_inj {A} (a b : A) : Ok a = Ok b -> a = b.
+Proof. congruence. Qed.
+
 Definition err_eqb (a b : err) : bool :=
   match a, b with
   | ValueError, ValueError | NotImplementedError, NotImplementedError
